@@ -72,7 +72,9 @@ class StampModel:
 
 def make_command(ex, name="cmd"):
     from goodwe.protocol import ProtocolCommand
-    c = ex.new_object(ProtocolCommand.__new__(ProtocolCommand))
+    classes = getattr(pg(ex), "command_classes", None) or (ProtocolCommand,)
+    cls = classes[ex.choose(len(classes), tag="command.class")] if len(classes) > 1 else classes[0]
+    c = ex.new_object(cls.__new__(cls))
     c.request = SBytes.fresh(ex, name + "_request")
     c.validator = ValidatorModel()
     c.request_bytes = StampModel(c, name)
@@ -190,6 +192,9 @@ def tx_obligations(ex, transport, payload):
     stamps = getattr(g, "stamps", [])
     fresh = bool(stamps) and stamps[-1][1] is payload and not any(p is payload for p in g.tx_log[:-1])
     ex.check("C03_every_transmission_sends_a_freshly_stamped_request", fresh)
+    cur = getattr(g, "current_command", None)
+    if cur is not None and stamps:
+        ex.check("C06_C18_transmission_carries_the_command_of_this_request", stamps[-1][0] is cur)
     ex.check("C10_transmission_uses_a_transport_of_the_running_loop", transport.loop is g.loop)
     lk = P._lock
     mine = lk is not None and lk.owner == g.me and (lk.is_locked is True or (
@@ -280,12 +285,27 @@ def callback_segment(ex, kind, which):
     """one protocol callback from an arbitrary invariant state"""
     from goodwe.exceptions import PartialResponseException, RequestRejectedException
     P, g = make_proto(ex, kind)
+    if kind == "tcp" and which == "data_received":
+        # the command in flight may be of the transport's own command family (code may test for it)
+        import goodwe.protocol as gp
+        g.command_classes = (gp.ProtocolCommand, gp.ModbusTcpProtocolCommand)
     arbitrary_state(ex, P, g, kind)
     ex.unit = f"{type(P).__name__}.{which}"
     # A1: data / errors reach the object only after it transmitted at least once
     if which in ("datagram_received", "data_received", "error_received"):
         ex.assume(mk_bool(iterm(g.tx) >= 1))
+    # process-wide state that every protocol object of the process writes (the Modbus/TCP transaction counter) has an
+    # arbitrary value whenever a callback runs: other inverter objects transmit in between (C20)
+    from . import contracts as _c
+    try:
+        slot, _mod, _name = _c._glob_slot(ex, "goodwe.protocol._modbus_tcp_tx")
+        tx_glob = ex.fresh_int("modbus_tcp_tx_of_the_process")
+        ex.assume(mk_bool(z3.And(tx_glob.t >= 0, tx_glob.t <= 0xFFFF)))
+        ex.glob_overlay[slot] = tx_glob
+    except Exception:      # noqa  (the counter was renamed or removed: nothing to havoc)
+        pass
     retry0, tx0, fut0, cmd0 = P._retry, g.tx, P.response_future, P.command
+    lock0 = P._lock
     fstate0 = fut0.state if fut0 is not None else None
     partial0, missing0 = P._partial_data, P._partial_missing
     timer0 = P._timer
@@ -337,6 +357,7 @@ def callback_segment(ex, kind, which):
         ex.check("C05_retry_budget_reset_when_the_answer_is_delivered", ex.compare(_EQ, P._retry, 0))
     ex.check("C04_callback_does_not_transmit", ex.compare(_EQ, g.tx, tx0))
     ex.check("C06_binding_of_command_and_future_untouched", P.command is cmd0 and P.response_future is fut0)
+    ex.check("C06_lock_object_is_kept_while_the_loop_is_the_same", P._lock is lock0)
     # C01 delivery: a result is set only with data the command's own validator accepted
     for e in evs:
         if e[0] == "set_result":
@@ -355,6 +376,18 @@ def callback_segment(ex, kind, which):
             ex.check("C07_composed_only_from_held_fragment_and_exact_remainder", ok)
             ex.check("C07_composed_only_when_length_is_the_missing_count",
                      ex.compare(_EQ, missing0, data.blen()))
+        if o is True and fut0 is not None:
+            was_pending = (fstate0 == PENDING) if isinstance(fstate0, int) else ex.known(iterm(fstate0) == PENDING)
+            if was_pending:
+                # an answer the command's own validator accepted reaches the caller -- whatever other objects of the
+                # process did meanwhile (nothing but the validator decides about an answer)
+                ex.check("C02_C06_C20_validated_answer_is_delivered",
+                         any(e[0] == "set_result" and e[1] is fut0 and e[2] is vdata for e in evs))
+        if not composed and isinstance(partial0, SBytes) and g.validated:
+            # the converse: a held fragment followed by a piece of exactly the missing length *is* reassembled,
+            # whatever the piece contains (it is payload: it may well start like a frame header)
+            held = z3.And(iterm(partial0.blen()) > 0, iterm(missing0) == iterm(data.blen()))
+            ex.check("C07_exact_remainder_is_reassembled", mk_bool(z3.Not(held)))
         if isinstance(o, PartialResponseException):
             ex.check("C07_fragment_is_held", P._partial_data is vdata)
             ex.check("C07_missing_count_recorded",
@@ -367,9 +400,9 @@ def callback_segment(ex, kind, which):
             was_pending = isinstance(fstate0, int) and fstate0 == PENDING or (
                 not isinstance(fstate0, int) and ex.known(iterm(fstate0) == PENDING))
             if was_pending:
-                ex.check("C08_rejection_forwarded_to_the_caller_at_once",
+                ex.check("C08_C09_rejection_forwarded_to_the_caller_at_once",
                          any(e[0] == "set_exception" and e[2] is o for e in evs))
-            ex.check("C08_rejection_is_not_retried",
+            ex.check("C08_C09_rejection_is_not_retried",
                      not any(e[0] in ("call_soon", "tx") for e in evs))
     if which == "_timeout_mechanism" and fut0 is not None:
         ex.check("C04_timeout_ends_the_wait",
@@ -387,6 +420,12 @@ def rely(ex, what):
     kind = "udp" if type(P).__name__.startswith("Udp") else "tcp"
     for name, c in invariant(ex, P, g):
         ex.check(f"{tag_of(name)}_{name}_before_suspension", c)
+    if what == "connect" and P.response_future is not None:
+        # while the connection is being set up, callbacks of the transport closed before (connection_lost is delivered
+        # in a later loop iteration, A2) still arrive: they must not find a pending future of the new request to cancel
+        st0 = P.response_future.state
+        done = (st0 != PENDING) if isinstance(st0, int) else ex.known(iterm(st0) != PENDING)
+        ex.check("C04_C10_no_future_of_the_new_request_is_pending_while_connecting", bool(done))
     start = getattr(g, "seg_start", 0)
     timer_obligations(ex, P, g, g.events[start:], getattr(g, "seg_timer", None))       # per atomic segment
     g.seg_start = len(g.events)
@@ -447,6 +486,8 @@ def send_request_segment(ex, kind, case=None, entry=None):
         cmd = P.command
     else:
         cmd = make_command(ex, "newcmd")
+    g.current_command = cmd
+    lock0 = P._lock if lockmode in ("free", "other", "mine") else None
     # requires (single requesting task): the previous request on this object has finished
     if P.response_future is not None:
         ex.assume(mk_bool(iterm(P.response_future.state) != PENDING))
@@ -461,6 +502,8 @@ def send_request_segment(ex, kind, case=None, entry=None):
         raised = pr.exc
     lock_obligations(ex, g)
     timer_obligations(ex, P, g, g.events[getattr(g, "seg_start", 0):], getattr(g, "seg_timer", None))
+    # callers queue on the lock object: replacing it while the event loop is the same lets two requests run at once
+    ex.check("C06_lock_object_is_kept_while_the_loop_is_the_same", lock0 is None or P._lock is lock0)
     if entry == "other":
         # cancelled while queued behind another task's request: that request must not be disturbed
         lk = P._lock
@@ -517,7 +560,11 @@ def apply_send_request_contract(ex, bound):
     lk = P._lock
     held = lk is not None and (lk.is_locked is True or (not isinstance(lk.is_locked, bool) and not ex.known(
         z3.Not(bterm(lk.is_locked)))))
-    ex.check("C06_lock_not_held_when_reentering", not held)
+    ex.check("C04_C06_lock_not_held_when_reentering", not held)
+    cur = getattr(g, "current_command", None)
+    if cur is not None:
+        # a retry transmits the request it retries, not whatever the object remembers from an earlier one
+        ex.check("C06_C18_retry_resends_the_command_of_this_request", bound.get("command") is cur)
     f = P.response_future
     done = f is None or (f.state != PENDING if isinstance(f.state, int) else ex.known(iterm(f.state) != PENDING))
     ex.check("C04_no_request_in_flight_when_reentering", bool(done))
@@ -562,6 +609,7 @@ def close_segment(ex, kind):
     ex.unit = f"{type(P).__name__}.close"
     g.suspensions.append(rely)
     from .inverter_harness import run_coro
+    lock0 = P._lock
     raised = None
     try:
         run_coro(ex, P.close)
@@ -569,6 +617,7 @@ def close_segment(ex, kind):
         raised = pr.exc
     ex.check("C09_close_raises_nothing", raised is None, detail=repr(raised))
     ex.check("C10_nothing_open_after_close", not g.open)
+    ex.check("C06_lock_object_is_kept_while_the_loop_is_the_same", P._lock is lock0)
     lk = P._lock
     free = lk is None or (lk.is_locked is False) or (not isinstance(lk.is_locked, bool) and ex.known(
         z3.Not(bterm(lk.is_locked))))
@@ -706,7 +755,7 @@ def command_binding(ex, clsname):
         res = ex.call(cmd.validator, [data], {})
     except PyRaise as pr:
         from goodwe.exceptions import PartialResponseException, RequestRejectedException
-        ex.check("C01_C02_C04_validator_of_the_command_raises_only_documented_outcomes",
+        ex.check("C01_C02_C04_C09_validator_of_the_command_raises_only_documented_outcomes",
                  isinstance(pr.exc, (PartialResponseException, RequestRejectedException)), detail=repr(pr.exc)[:120])
         ex.check("C02_wellformed_answer_to_this_very_request_is_accepted", negate(wellformed()),
                  detail=f"validator raised {type(pr.exc).__name__}")
